@@ -651,7 +651,7 @@ func r067InheritanceAgreement(c *an.Ctx, rule string) {
 	order := func(f *an.Func) []string {
 		var out []string
 		seen := map[string]bool{}
-		ast.Inspect(f.Decl.Body, func(nd ast.Node) bool {
+		c.InspectAll(f, func(_ *an.Func, nd ast.Node) bool { // the function and the helpers extracted from it
 			// the owners are tested in if / else-if chains or in the arms of a tagless switch
 			var cond ast.Expr
 			switch x := nd.(type) {
